@@ -320,6 +320,17 @@ func cmdCheck(args []string) int {
 			for t := 0; t < tries; t++ {
 				var out string
 				var err error
+				if v.Kind == "race" {
+					// a data race is confirmed by the race detector of the native build
+					rec, out, err = native.ReplayRace(o.Pkg, pkgName, harnesses, o.Harness, file, true)
+					if strings.Contains(out, "WARNING: DATA RACE") {
+						return file, true, ""
+					}
+					if err != nil && rec == nil {
+						return file, false, fmt.Sprintf("native race replay failed to run: %v\n%s", err, tail(out, 30))
+					}
+					continue
+				}
 				rec, out, err = native.Replay(o.Pkg, pkgName, harnesses, o.Harness, file)
 				if err != nil {
 					return file, false, fmt.Sprintf("native replay failed to run: %v\n%s", err, tail(out, 30))
